@@ -43,6 +43,7 @@ type Out struct {
 	RegisteredTypes []string `json:"registeredTypes"`
 	Unresolved      []string `json:"unresolved"`
 	FrameworkForbid []string `json:"framework_forbidden_calls"`
+	SourceConstants []string `json:"sourceConstants"` // values of the LintSource constants declared in package lint
 }
 
 func main() {
@@ -94,6 +95,20 @@ func main() {
 		}
 	}
 	sort.Strings(out.Imported)
+
+	for _, p := range pkgs {
+		if p.PkgPath == mod+"/lint" {
+			sc := p.Types.Scope()
+			for _, n := range sc.Names() {
+				if c, ok := sc.Lookup(n).(*types.Const); ok {
+					if nt, ok := c.Type().(*types.Named); ok && nt.Obj().Name() == "LintSource" && c.Val().Kind() == constant.String {
+						out.SourceConstants = append(out.SourceConstants, constant.StringVal(c.Val()))
+					}
+				}
+			}
+		}
+	}
+	sort.Strings(out.SourceConstants)
 
 	// ---- lint-shaped types
 	var lintPkgs []*packages.Package
